@@ -121,6 +121,23 @@ theorem list_read_eq_inorder {multi : Bool} {s : St} (hr : Reach multi s) (p : N
 theorem size_reach {multi : Bool} {s : St} (hr : Reach multi s) : s.size = (abs s).length :=
   (abs_length s (invs_reach hr).1).symm
 
+/-- `isEmpty()` (`!root`) agrees with `size() == 0` and with an empty iteration -/
+theorem isEmpty_reach {multi : Bool} {s : St} (hr : Reach multi s) :
+    (s.t = .nil ↔ s.size = 0) ∧ (s.t = .nil ↔ abs s = []) := by
+  have h := (inv_reach hr).size
+  have hl := size_reach hr
+  cases ht : s.t with
+  | nil =>
+    rw [ht] at h
+    simp only [Tree.size] at h
+    rw [h] at hl
+    refine ⟨⟨fun _ => h, fun _ => rfl⟩, ⟨fun _ => List.eq_nil_of_length_eq_zero hl.symm, fun _ => rfl⟩⟩
+  | node i k v hh sl l r =>
+    rw [ht] at h
+    simp only [Tree.size] at h
+    refine ⟨⟨fun e => by simp at e, fun e => by omega⟩, ⟨fun e => by simp at e, fun e => ?_⟩⟩
+    rw [e] at hl; simp at hl; omega
+
 /-- Map iterates strictly ascending keys -/
 theorem sorted_map {s : St} (hr : Reach false s) : (abs s).Pairwise (fun a b => a.1 < b.1) := by
   obtain ⟨h, _, hm⟩ := invs_reach hr
@@ -438,12 +455,16 @@ theorem multi_insert_stable (ops : List Op) (k v : Int) :
 
   * Keys are `Int` in this file.  PropsK.lean lifts the model to any key type with a lawful strict
     total order and proves `G.transfer` (a generic run is the `Int` run of the relabelled history),
-    `G.transfer_out`, `G.find_cost_log`, `G.height_log`, `G.sorted_map/multi`, `G.int_instance`.
-    `G.refines_rel` restates the refinement over `K` (for the contents relabelled by the order
-    embedding of the keys involved); PropsIds.lean has the identity statements for both.
-  * The free-list discipline (LIFO reuse of item addresses, blocks of 4) is modelled (`St.alloc`,
-    invariant: ids distinct and disjoint from the free list); which id an insert reuses is not
-    the subject of a theorem (compared with the real code in the thorough tier).
+    `G.transfer_out`, `G.find_cost_log`, `G.height_log`, `G.sorted_map/multi`, `G.int_instance`, `G.refines_rel`;
+    PropsKSpec.lean states the refinement directly against the specification typed over `K` (SpecK.lean):
+    `G.refines_relK`, `G.refines_run_relK` (closed in the extension round).
+  * Which address an insert takes (LIFO free list, blocks of `ipbOf` items) is now proved for `Int` keys:
+    PropsIds.lean `alloc_lifo`, `insert_takes_free_head`, `remove_then_insert_reuses`.  `G.insert_takes_free_head` is the
+    statement for every key type; `alloc_lifo` / `remove_then_insert_reuses` are stated for `Int` keys only.
+  * PropsRot.lean ties `updateHeightAndSlope/rotr/rotl/shiftr/shiftl/rebal` to the headers by translation.
+    STILL hand-translated (tied by the correspondence run incl. the white-box comparison only): the descent,
+    list threading and upward loop of the private `insert`, `remove` (unlinking, `rebalParent`,
+    `rebalParentUpwards`), the hinted `insert`, `find`, `count`, `clear`, copy / bulk insert loops.
 -/
 
 /-! ### non-vacuity: concrete reachable states -/
